@@ -30,6 +30,22 @@ pub struct Synth {
     pub aux: Vec<(u8, PartRef)>,
     pub invalid: Vec<u8>,
     pub forms: Vec<FormOp>,
+    /// auxiliary data entries of post-Shelley blocks re-shaped (all three shapes are legal from Alonzo on, the first two
+    /// from Allegra on): 0 = as found, 1 = `[metadata, []]`, 2 = the bare metadata map (entries without a metadata map
+    /// stay as found)
+    #[serde(default)]
+    pub aux_shape: u8,
+}
+
+/// The metadata map inside an auxiliary-data item of any shape (bare map, `[metadata, scripts]`, tag 259 with key 0).
+pub fn metadata_of(aux: &Node) -> Option<&Node> {
+    if aux.tag() == Some(259) {
+        return aux.untagged().map_get(0);
+    }
+    if let Some(a) = aux.as_array() {
+        return a.first();
+    }
+    aux.as_map().map(|_| aux)
 }
 
 #[derive(Debug, Clone, Serialize, Deserialize)]
@@ -96,7 +112,24 @@ pub fn check_block(b: &MultiEraBlock, view: &BlockView, src: &[u8], obs: &mut Ob
             araw.map(|x| hexs(&x[..x.len().min(24)])), want_aux.map(|x| hexs(&x[..x.len().min(24)])));
         pv_ensure!(tx.is_valid() == tv.valid, "c30-validity-flag",
             "tx {i}: is_valid() = {} but invalid list = {:?}", tx.is_valid(), view.invalid);
-        // metadata view is consistent with the presence of auxiliary data
+        // the metadata view shows this transaction's own metadata, whatever shape its auxiliary data has
+        if let Some(md) = tv.aux.and_then(metadata_of).and_then(|m| m.as_map()) {
+            // (as sets: the decoded map is ordered by label, the wire need not be)
+            let mut want_labels: Vec<u64> = md.iter().filter_map(|(k, _)| k.as_u64()).collect();
+            if want_labels.len() == md.len() && !want_labels.is_empty() {
+                want_labels.sort();
+                want_labels.dedup();
+                let got_labels: Option<Vec<u64>> = tx.metadata().as_alonzo().map(|m| {
+                    let mut v: Vec<u64> = m.iter().map(|(k, _)| *k).collect();
+                    v.sort();
+                    v
+                });
+                let shape = if tv.aux.map(|a| a.tag() == Some(259)).unwrap_or(false) { "tag259" } else if tv.aux.map(|a| a.as_array().is_some()).unwrap_or(false) { "array" } else { "map" };
+                obs.class(format!("aux-shape:{}:{shape}", layout::ERA_NAMES[view.era_tag as usize]));
+                pv_ensure!(got_labels.as_ref() == Some(&want_labels), format!("c30-metadata-not-the-transactions-own:{shape}"),
+                    "tx {i}: auxiliary data ({shape} shape) carries metadata labels {:?} but metadata() shows {:?}", want_labels, got_labels);
+            }
+        }
         if want_aux.is_none() {
             pv_ensure!(matches!(tx.metadata(), pallas_traverse::MultiEraMeta::Empty), "c30-aux-pairing",
                 "tx {i}: no auxiliary data in the block but metadata() is not empty");
@@ -209,7 +242,12 @@ pub fn assemble(sy: &Synth) -> Option<Vec<u8>> {
     for (k, p) in &sy.aux {
         let t = tree_of(&p.src)?;
         let b = block_inner(&t)?;
-        let v = b.get(3)?.map_get(p.i as u64)?.clone();
+        let mut v = b.get(3)?.map_get(p.i as u64)?.clone();
+        if sy.tag >= 3 && sy.aux_shape % 3 != 0 {
+            if let Some(md) = metadata_of(&v).filter(|m| m.as_map().is_some()).cloned() {
+                v = if sy.aux_shape % 3 == 1 { cborx::array(vec![md, cborx::array(vec![])]) } else { md };
+            }
+        }
         aux.push((cborx::uint(*k as u64), v));
     }
     let mut items = vec![fb.first()?.clone(), cborx::array(bodies), cborx::array(wits), cborx::map(aux)];
@@ -335,7 +373,8 @@ pub fn synth_strategy() -> impl Strategy<Value = Case> {
             } else {
                 vec![]
             };
-            Case::Synth(Synth { tag, frame, txs, aux, invalid, forms })
+            let aux_shape = (fsel >> 8) as u8 % 3;
+            Case::Synth(Synth { tag, frame, txs, aux, invalid, forms, aux_shape })
         })
 }
 
